@@ -102,7 +102,8 @@ def _alarm(signum, frame):
 
 
 def grace():
-    for _ in range(30):
+    # (returns at once when no child is left; up to 6 s so that a loaded machine does not turn a slow exit into a leak)
+    for _ in range(120):
         if not multiprocessing.active_children():
             return 0
         time.sleep(0.05)
